@@ -52,6 +52,10 @@ def run(repo):
                     iters.append((_seq_key(it), elt[:50]))
         elif isinstance(n, ast.For):
             it = expand_locals(dm.node, n.iter, defs=defs)
+            if isinstance(it, (ast.ListComp, ast.GeneratorExp)) and len(it.generators) == 1 and not it.generators[0].ifs:
+                # for x in [f(item) for item in L]: the rows come in the order of L (the comprehension itself is
+                # one of the sequences compared below)
+                it = expand_locals(dm.node, it.generators[0].iter, defs=defs)
             if any(is_self_attr(x, 'lin_constr') for x in ast.walk(it)):
                 iters.append((_seq_key(it), 'for-loop (indptr)'))
     if len(iters) < 6:
